@@ -460,7 +460,10 @@ class Oracle:
                     self.add("source-changed", "the mirror changed a source file", None, r)
             elif r in ring_deleted:
                 # deleted from the source by the count=1 ring buffer: must have been mirrored in its final state
-                if dst.get(r) != b:
+                if r not in dst:
+                    self.add("move-metadata-lost", "move mode: a reported metadata file was deleted from the source without ever "
+                             "having been mirrored: it exists on neither side", "the file at the destination", r)
+                elif dst.get(r) != b:
                     self.add("move-metadata-stale-after-reordered-events",
                                       "move mode: a metadata file was deleted from the source (newer file reported) before "
                                       "its last modification was mirrored; the destination keeps a stale version",
